@@ -357,7 +357,13 @@ type c12Arb struct {
 	grace time.Duration
 }
 
-func c12NewArb(t *testing.T, c *c12Case, fcErr error) *c12Arb {
+// c12NewArb builds the arbitrator. boot == nil: the package's test constructor
+// (NewChannelArbitrator with EMPTY start-up HTLC sets; the sets arrive through
+// link updates). boot != nil: the way ChainArbitrator does it at start-up /
+// after a restart: NewChannelArbitrator with the given NON-EMPTY start-up sets
+// (boot[s] = HTLCs of set s as loaded from the channel's commitments; the
+// pending set only when bootP).
+func c12NewArb(t *testing.T, c *c12Case, fcErr error, boot *[3][]channeldb.HTLC, bootP bool) *c12Arb {
 	obs := &c12Obs{}
 	lg := &c12Log{obs: obs, state: StateDefault}
 	ctx, err := createTestChannelArbitrator(t, lg)
@@ -418,6 +424,16 @@ func c12NewArb(t *testing.T, c *c12Case, fcErr error) *c12Arb {
 		}
 		obs.finals = append(obs.finals, s)
 		return nil
+	}
+	if boot != nil {
+		htlcSets := make(map[HtlcSetKey]htlcSet)
+		htlcSets[LocalHtlcSet] = newHtlcSet(boot[c12L])
+		htlcSets[RemoteHtlcSet] = newHtlcSet(boot[c12R])
+		if bootP {
+			htlcSets[RemotePendingHtlcSet] = newHtlcSet(boot[c12P])
+		}
+		arb = NewChannelArbitrator(arb.cfg, htlcSets, lg)
+		ctx.chanArb = arb
 	}
 	return &c12Arb{ctx: ctx, arb: arb, obs: obs, log: lg, clk: clk, grace: 20 * time.Second}
 }
@@ -549,6 +565,7 @@ var c12Triggers = []struct {
 // ---------------------------------------------------------------------------
 
 type c12 struct {
+	forceBoot string
 	t    *testing.T
 	w    *bufio.Writer
 	rng  *rand.Rand
@@ -788,7 +805,7 @@ func (x *c12) safe(f func() string) (res string) {
 
 func (x *c12) unitCase(c *c12Case, maxHeights int) {
 	x.header("unit", c, "")
-	a := c12NewArb(x.t, c, nil)
+	a := c12NewArb(x.t, c, nil, nil, false)
 	a.arb.startTimestamp = a.clk.Now()
 	a.setUptime(c.grace, x.rng)
 	arb := a.arb
@@ -852,6 +869,12 @@ type c12Run struct {
 	c    *c12Case
 	a    *c12Arb
 	done bool
+	// boot: "link" (sets arrive through link updates before Start), "restart"
+	// (sets given to NewChannelArbitrator, silent peer: no link update) or
+	// "restart+upd" (stale start-up sets for the keys in stale, repaired by link
+	// updates before Start).
+	boot  string
+	stale [3]bool
 }
 
 func (r *c12Run) barrier() {
@@ -908,6 +931,9 @@ func (r *c12Run) start(h uint32) {
 		if s == c12P && !r.c.pPresent {
 			continue
 		}
+		if r.boot == "restart" || (r.boot == "restart+upd" && !r.stale[s]) {
+			continue
+		}
 		r.a.arb.notifyContractUpdate(&ContractUpdate{HtlcKey: c12SetKeys[s], Htlcs: r.c.htlcs(s)})
 	}
 	// Start reads Clock.Now() as start timestamp (first call of c12Clock)
@@ -917,6 +943,21 @@ func (r *c12Run) start(h uint32) {
 	}
 	r.barrier()
 	r.report(fmt.Sprintf("start h=%d", h))
+}
+
+// relink: the link reports a new HTLC set for one commitment while the
+// arbitrator is running (the case's set s is replaced by hs).
+func (r *c12Run) relink(s int, hs []c12H) {
+	r.c.sets[s] = hs
+	r.x.pf("UPD s=%s", c12SetNames[s])
+	for _, h := range hs {
+		r.x.pf("U s=%s idx=%d in=%d amt=%d exp=%d out=%d hash=%d", c12SetNames[s], h.idx,
+			c12b(h.incoming), h.amt, h.exp, h.out, h.hash)
+	}
+	r.a.obs.reset()
+	r.a.arb.notifyContractUpdate(&ContractUpdate{HtlcKey: c12SetKeys[s], Htlcs: r.c.htlcs(s)})
+	r.barrier()
+	r.report("relink")
 }
 
 type c12Ev struct {
@@ -1094,9 +1135,33 @@ func (x *c12) arbCase(c *c12Case, scen int, fcErrKind int, closeKind string, scr
 	case 2:
 		fcErr, fcName = errors.New("c12 force close failure"), "other"
 	}
-	x.header("arb", c, " fcerr="+fcName)
-	a := c12NewArb(x.t, c, fcErr)
-	run := &c12Run{x: x, c: c, a: a}
+	// how the arbitrator learns its HTLC sets (drawn before anything runs)
+	boot := []string{"link", "restart", "restart", "restart+upd"}[x.rng.Intn(4)]
+	if x.forceBoot != "" {
+		boot = x.forceBoot
+	}
+	var stale [3]bool
+	var bootSets [3][]channeldb.HTLC
+	for s := 0; s < 3; s++ {
+		bootSets[s] = c.htlcs(s)
+		if boot == "restart+upd" && x.rng.Intn(2) == 0 {
+			stale[s] = true
+			bootSets[s] = bootSets[s][:x.rng.Intn(len(bootSets[s])+1)]
+		}
+	}
+	// a later link update while still in StateDefault (pure deadline cases only)
+	relinkAt, relinkSet, relinkCut := -1, x.rng.Intn(3), x.rng.Intn(3)
+	if closeKind == "none" && scen == 0 && fcErrKind == 0 && x.rng.Intn(3) != 0 {
+		relinkAt = x.rng.Intn(3)
+	}
+	x.header("arb", c, " fcerr="+fcName+" boot="+boot)
+	var a *c12Arb
+	if boot == "link" {
+		a = c12NewArb(x.t, c, fcErr, nil, false)
+	} else {
+		a = c12NewArb(x.t, c, fcErr, &bootSets, c.pPresent)
+	}
+	run := &c12Run{x: x, c: c, a: a, boot: boot, stale: stale}
 	defer func() {
 		x.pf("END")
 		_ = a.arb.Stop()
@@ -1141,6 +1206,15 @@ func (x *c12) arbCase(c *c12Case, scen int, fcErrKind int, closeKind string, scr
 	}
 	if scen != 2 {
 		for i, h := range hs[1:] {
+			if i == relinkAt && a.arb.state == StateDefault && (relinkSet != c12P || c.pPresent) {
+				// the link drops the newest HTLCs of one set / re-sends the set
+				old := c.sets[relinkSet]
+				keep := len(old) - relinkCut
+				if keep < 0 {
+					keep = 0
+				}
+				run.relink(relinkSet, append([]c12H(nil), old[:keep]...))
+			}
 			run.block(h, c12Ev{kind: "none"})
 			last = h
 			if run.done {
@@ -1566,7 +1640,7 @@ func (x *c12) watcherCase() {
 
 	// the arbitrator: told the HTLC sets the link saw (the dump), fed the
 	// real close event.
-	a := c12NewArb(t, c, nil)
+	a := c12NewArb(t, c, nil, nil, false)
 	defer func() { _ = a.arb.Stop() }()
 	run := &c12Run{x: x, c: c, a: a}
 	a.setUptime(c.grace, r)
@@ -1743,6 +1817,22 @@ func TestVerifC12(t *testing.T) {
 
 	for _, e := range c12Corpus() {
 		x.arbCase(e.c, e.scen, e.fcErr, e.close, e.hs)
+	}
+	// restart with one of our CommitSigs unrevoked: forwarded HTLC 8 exists only
+	// on the peer's pending commitment; the peer stays silent until the HTLC
+	// reaches expiry - delta (cut-off 695).
+	{
+		rs := &c12Case{dout: 5, din: 5, grace: true, fwd: map[uint64]bool{3: true, 8: true}, pre: map[int]int{}}
+		rs.sets[c12L] = []c12H{{idx: 3, amt: 5000000, exp: 900, out: 0, hash: 1}}
+		rs.sets[c12R] = []c12H{{idx: 3, amt: 5000000, exp: 900, out: 0, hash: 1}}
+		rs.sets[c12P] = []c12H{{idx: 3, amt: 5000000, exp: 900, out: 0, hash: 1},
+			{idx: 8, amt: 4000000, exp: 700, out: 1, hash: 2}}
+		rs.pPresent = true
+		for _, b := range []string{"restart", "link", "restart+upd"} {
+			x.forceBoot = b
+			x.arbCase(rs, 0, 0, "none", []uint32{600, 694, 695, 696})
+		}
+		x.forceBoot = ""
 	}
 	for _, e := range c12Corpus()[:3] {
 		x.unitCase(e.c, maxH)
